@@ -77,16 +77,10 @@ def hash_format_and_serialize(F, rep):
 
 
 def comment_formatters(F):
-    """converter functions whose format template starts with '# ' (comment-line producers)"""
-    out = set()
-    for b in F.bodies.values():
-        if b.crate != "cgt_converter":
-            continue
-        for fc in format_calls(F, b):
-            txt = template_text(fc["parts"])
-            if txt and txt.startswith("# "):
-                out.add(b.id)
-    return out
+    """converter functions every result of which starts with '# ' (comment-line producers; symbolic string synthesis, so a
+    `format!("# {}")` and a `push_str("# ")` spelling are the same thing)"""
+    import rules.c18 as c18
+    return {fid for fid, v in c18.line_formatters(F).items() if v[0] == "comment"}
 
 
 def clocks(F, rep):
